@@ -133,7 +133,7 @@ def default_raises(node_ast, kind):
             return None   # re-raise: filled by the builder from the handler context
         c = X.get(node_ast.exc)
         return set(c) if c else set(GENERIC)
-    if isinstance(node_ast, (ast.Pass, ast.Break, ast.Continue, ast.Global, ast.Nonlocal, ast.FunctionDef,
+    if isinstance(node_ast, (A.InlineExit, ast.Pass, ast.Break, ast.Continue, ast.Global, ast.Nonlocal, ast.FunctionDef,
                              ast.ClassDef, ast.Import, ast.ImportFrom)):
         if isinstance(node_ast, (ast.Import, ast.ImportFrom)):
             return set(GENERIC)
@@ -197,6 +197,7 @@ class _Finally:
         self.loop = loop
         self.handler_types = handler_types
         self.copies = {}            # cont kind -> (entry node, [tail placeholder])
+        self.inl = list(getattr(builder, "_inl", []))
         self.exc_types = set()
         self.exc_tail = None
 
@@ -215,7 +216,11 @@ class _Finally:
         else:
             after = target_thunk()
         if self.body is not None:
-            first = b.block(self.body, after, self.frames, self.loop, self.handler_types, mark=kind)
+            saved, b._inl = b._inl, list(self.inl)
+            try:
+                first = b.block(self.body, after, self.frames, self.loop, self.handler_types, mark=kind)
+            finally:
+                b._inl = saved
         else:
             first = b.new("with_exit", self.with_node)
             first.cont = kind
@@ -236,6 +241,7 @@ class CFG:
         self.excexit = self.new("excexit")
         self._finallies = []
         self._reraises = []      # (node, frames, (classes, except node))
+        self._inl = []           # open InlineBlocks: (block_id, continuation node, len(frames) at entry)
         self.etypes = {}         # (src id, dst id) -> classes flowing along that exceptional edge
         body = func_node.body if isinstance(func_node.body, list) else [ast.Return(value=func_node.body)]
         first = self.block(body, self.exit, [], None, None)
@@ -404,7 +410,7 @@ class CFG:
         """target node for a return/break/continue leaving through the enclosing finally/with frames.
         `loop` = (break_target, continue_target, depth) where depth = len(frames) at loop entry."""
         lo = 0
-        if kind in ("break", "continue"):
+        if kind in ("break", "continue") or kind.startswith("inl"):
             lo = loop[2]
         # walk frames from the innermost; the first finally found gets a copy that continues outward
         for i in range(len(frames) - 1, lo - 1, -1):
@@ -474,6 +480,18 @@ class CFG:
             return self.simple(st, tgt, frames, handler_types, mark=mark)
         if isinstance(st, ast.Raise):
             return self.simple(st, None, frames, handler_types, mark=mark)
+        if isinstance(st, A.InlineBlock):
+            self._inl.append((st.block_id, nxt, len(frames)))
+            try:
+                return self.block(st.body, nxt, frames, loop, handler_types, mark)
+            finally:
+                self._inl.pop()
+        if isinstance(st, A.InlineExit):
+            for bid, target, depth in reversed(self._inl):
+                if bid == st.block_id:
+                    tgt = self._cont("inl%d" % bid, frames, (target, None, depth), target)
+                    return self.simple(st, tgt, frames, handler_types, mark=mark)
+            return self.simple(st, nxt, frames, handler_types, mark=mark)
         if isinstance(st, ast.Match):
             # not used by the package; model as opaque branching statement
             n = self.simple(st.subject, None, frames, handler_types, mark=mark)
